@@ -39,17 +39,39 @@ Init == /\ mi \in 1..Len(Msgs)
         /\ rem = [n \in Idx[Msgs[mi].ty].names |-> AtomsOf(Idx[Msgs[mi].ty].byname[n], Msgs[mi].val[n])]
         /\ out = <<>> /\ unk = <<>> /\ nsh = 0 /\ nvar = 0 /\ phase = "emit"
 
+\* a map entry is a two-field message: any order of key and value, a default key / value left out, a shadowed earlier key
+MapVars == {"kv", "vk", "nokey", "noval", "dupkey"}
+ScalarKindM(kind) == kind \notin MsgKinds /\ kind # "map"
+AltKey(kind, v) ==
+  CASE kind \in IntKinds -> (IF v.mag = <<5>> /\ ~v.neg THEN [k |-> "int", neg |-> FALSE, mag |-> <<6>>] ELSE [k |-> "int", neg |-> FALSE, mag |-> <<5>>])
+    [] kind = "bool" -> [k |-> "bool", v |-> ~v.v]
+    [] kind = "string" -> [k |-> "str", cp |-> IF v.cp = <<122>> THEN <<121>> ELSE <<122>>]
+MapVarOK(f, pair, mv) ==
+  CASE mv = "nokey" -> IsDefaultScalar(f.kkind, pair[1])
+    [] mv = "noval" -> ScalarKindM(f.vkind) /\ IsDefaultScalar(f.vkind, pair[2])
+    [] OTHER -> TRUE
+MapEntryVar(f, pair, pad, mv) ==
+  LET ko == Occ(Idx, f, 1, f.kkind, pair[1], 0)
+      vo == Occ(Idx, f, 2, f.vkind, pair[2], 0)
+      body == CASE mv = "kv" -> ko \o vo
+                [] mv = "vk" -> vo \o ko
+                [] mv = "nokey" -> vo
+                [] mv = "noval" -> ko
+                [] mv = "dupkey" -> Occ(Idx, f, 1, f.kkind, AltKey(f.kkind, pair[1]), 0) \o ko \o vo
+  IN PadTag(f.num, 2, pad) \o PadLen(body, pad)
+
 \* emit the next k atoms of field n
-Emit(n, k, packed, pad) ==
+Emit(n, k, packed, pad, mv) ==
   LET f == FOf(n)  xs == SubSeq(rem[n], 1, k) IN
   /\ phase = "emit" /\ k >= 1 /\ k <= Len(rem[n])
   /\ (k > 1 => (f.card = "repeated" /\ Packable(f.kind) /\ packed))
   /\ (packed => (f.card = "repeated" /\ Packable(f.kind)))
+  /\ (mv # "kv" => (f.card = "map" /\ MapVarOK(f, xs[1], mv)))
   /\ out' = out \o (IF packed THEN PackedOcc(f, xs, pad)
-                    ELSE IF f.card = "map" THEN MapEntryOcc(Idx, f, xs[1], pad)
+                    ELSE IF f.card = "map" THEN MapEntryVar(f, xs[1], pad, mv)
                     ELSE Occ(Idx, f, f.num, f.kind, xs[1], pad))
   /\ rem' = [rem EXCEPT ![n] = SubSeq(@, k + 1, Len(@))]
-  /\ LET canonical == pad = 0 /\ ((f.card = "repeated" /\ Packable(f.kind)) => (packed /\ k = Len(rem[n]))) IN
+  /\ LET canonical == pad = 0 /\ mv = "kv" /\ ((f.card = "repeated" /\ Packable(f.kind)) => (packed /\ k = Len(rem[n]))) IN
      nvar' = IF canonical THEN nvar ELSE nvar + 1
   /\ nvar' <= MaxVar
   /\ UNCHANGED <<mi, unk, nsh, phase>>
@@ -94,7 +116,7 @@ Done == /\ phase = "emit" /\ AllEmitted
         /\ (Export => PrintT(<<"CASE", mi, out, UnkBytes(unk, 1)>>))
         /\ UNCHANGED <<mi, rem, out, unk, nsh, nvar>>
 
-Next == \/ \E n \in DOMAIN rem, k \in 1..MaxChunk, packed \in BOOLEAN, pad \in 0..PadMax : Emit(n, k, packed, pad)
+Next == \/ \E n \in DOMAIN rem, k \in 1..MaxChunk, packed \in BOOLEAN, pad \in 0..PadMax, mv \in MapVars : Emit(n, k, packed, pad, mv)
         \/ \E n \in DOMAIN rem, pad \in 0..PadMax : Shadow(n, pad)
         \/ \E n \in DOMAIN rem, sib \in DOMAIN rem, pad \in 0..PadMax : ShadowSibling(n, sib, pad)
         \/ \E u \in 1..Len(UnkPool) : Unknown(u)
